@@ -7,7 +7,7 @@ META = {
              'free-running fork/spawn; oracle = happens-before check on the merged trace: every submit(T) at the '
              'Runner boundary and every start(T) event of run() is preceded by yield(D)/end(D) of every dependency D '
              'named by the spec; every dep-read event carries the reference value of D, or raised for a failed D. '
-             'Distinct by (DAG structure, config, schedule seed, failing set); non-trivial when >= 1 dependency read '
+             'A third of the scenarios make a second run_tasks call on the same Lab and the same task objects (bust_cache, new generation, other failing set): every read must then see the value computed by the second call or raise. Distinct by (DAG structure, config, schedule seed, failing set); non-trivial when >= 1 dependency read '
              'was observed and >= 2 completions.'),
     'assumptions': ['cross-process order uses CLOCK_MONOTONIC shared by all processes of the host',
                     'failing tasks are dependency-only (failed requested tasks are the subject of C10)'],
@@ -24,6 +24,16 @@ def make_scn(rng, real):
     kinds = ('raise:ValueError', 'raise:Multi', 'kill') if backend != 'serial' else ('raise:ValueError', 'raise:Multi')
     scn = gen_dag_scenario(rng, backend=backend, nmax=rng.choice([5, 8, 12]), failing=rng.random() < 0.5,
                            fail_kinds=kinds)
+    if rng.random() < 0.35:
+        # a second run_tasks call with the same Lab and the same task objects: everything re-executes
+        # (bust_cache) at a new generation, some dependency-only tasks now fail
+        scn['gated'] = False if backend in ('fork', 'spawn') else scn.get('gated')
+        if backend in ('fork', 'spawn'):
+            scn['free_sleep'] = [0.0, 0.005]
+        scn['failing'] = {}
+        names = [n for n in scn['spec']['tasks'] if n not in scn['spec']['requested']]
+        f2 = {n: 'raise:ValueError' for n in rng.sample(names, rng.randrange(0, min(2, len(names)) + 1))} if names else {}
+        scn['second_run'] = {'failing': f2}
     return scn
 
 
@@ -38,6 +48,11 @@ def judge(rep, scn, out):
     if out.exc is not None:
         rep.foreign[f'run_tasks raised {type(out.exc).__name__}'] += 1
     report_bad(rep, scn, bad)
+    if getattr(out, 'second', None):
+        bad2, n2 = oracles.c02_second(scn, out)
+        rep.count('second_call_dep_reads_checked', n2)
+        rep.count('second_calls')
+        report_bad(rep, scn, bad2)
     ny = sum(1 for c in out.trace.calls if c['op'] == 'yield')
     return nreads >= 1 and ny >= 2
 
@@ -47,6 +62,7 @@ def run_shard(rep):
     cfg = META['tiers'][rep.tier]
     rep.require('dep_reads_checked', 500)
     rep.require('reads_of_failed_dep', 5)
+    rep.require('second_call_dep_reads_checked', 100)
     drive(rep, 'C02', make_scn=make_scn, judge=judge, n_sim=cfg['n_sim'], n_real=cfg['n_real'])
 
 
